@@ -134,7 +134,12 @@ Lemma tc_new_inv D Sg g sh pty x body k f' :
     tc_form D Sg gl (Some xs) bt body = TOk b' /\
     (gr = gr0 \/ exists t, gr = aset (ident x) t gr0) /\
     (tk = bt \/ unfold_opt D bt = TOk tk) /\
-    tc_form D Sg (aset (ident x) tk gr) sh pty k = TOk k'.
+    tc_form D Sg (aset (ident x) tk gr) sh pty k = TOk k' /\
+    match body with
+    | FCall fn _ _ => exists sg, sig_lookup Sg fn = Some sg /\ unfold_opt D (fs_type sg) = TOk bt /\ tk = bt
+    | _ => exists xt xt1, nty x = Some xt /\ add_missing D xt = Ok xt1 /\ check_wf D xt1 = true /\
+                          unfold_opt D (Some xt1) = TOk bt /\ unfold_opt D bt = TOk tk
+    end.
 Proof.
   intros H. cbn [tc_form] in H.
   apply tbind_ok in H; destruct H as (u0 & G0 & H).
@@ -158,7 +163,10 @@ Proof.
          Hk : tc_form _ _ (aset _ ?tk ?gr) _ _ _ = TOk ?k' |- _ =>
          exists ns, gl, gr0, bt, xs, tk, gr, b', k'
        end;
+       repeat match goal with E : lift _ = TOk _ |- _ => apply lift_ok in E end;
        repeat split; auto;
+       try (eexists; repeat split; eauto; fail);
+       try (eexists _, _; repeat split; eauto; fail);
        try (apply nonself_free_names_axiom; reflexivity);
        try (cbn [free_names]; rewrite fold_append_nonself; reflexivity);
        try (match goal with |- _ \/ _ => first [left; reflexivity | right; assumption
